@@ -34,6 +34,8 @@ def line_source_helpers(prog, crate):
                 payload = peel(a.kids[0])
                 if any(n.kind == "call" and "Lines<" in n.a and method_name(n.a) == "Iterator::next" for n in payload.walk()):
                     good = True
+            elif a.kind == "call" and "Lines<" in a.a and method_name(a.a) == "Iterator::next":
+                good = True        # the Option of Lines::next handed on as it is
         if good:
             out[(b.crate, b.path)] = b
     return out
@@ -54,12 +56,23 @@ def success_edge(f, bb, t):
     """(switch block, target) taken when the line source call at bb yielded a line"""
     dest = t["dest"]["l"]
     cur = t["target"]
+    test = None
     for _ in range(6):
         blk = f.blocks[cur]
         term = blk["term"]
         if term["k"] == "call" and mname(term) == "Try::branch":
             cur = term["target"]
             continue
+        if term["k"] == "call" and mname(term) in ("Option::is_some", "Option::is_none") and test is None:
+            test = mname(term)          # `if line.is_some() { .. }`: the bool switch that follows decides
+            cur = term["target"]
+            continue
+        if term["k"] == "switch" and test is not None:
+            be = bool_edges(f, cur)
+            if be is None:
+                return None
+            yes, no = (be[0], be[1]) if test == "Option::is_some" else (be[1], be[0])
+            return cur, yes, [no]
         if term["k"] == "switch":
             ve, rv = variant_edges(f, cur)
             if ve is None:
@@ -604,6 +617,8 @@ def _non_identity(tree, is_read, is_local=lambda n: False):
                 bad.append(n)
             return
         for k in n.kids:
+            if n.kind == "phi" and peel(k).kind == "call" and method_name(peel(k).a) == "FromResidual::from_residual":
+                continue        # the None / Err propagation alternative of `?` carries no text
             walk(k)
     walk(tree)
     return bad
@@ -624,6 +639,9 @@ def r6_15(ctx):
         alts = r.kids if r.kind == "phi" else [r]
         for a in alts:
             a = peel(a)
+            if a.kind == "call" and "Lines<" in a.a and method_name(a.a) == "Iterator::next":
+                n += 1
+                ctx.ok("source-verbatim:" + hb.npath.split("::")[-1], hb.where(), "%s returns the Option of Lines::next itself" % hb.npath)
             if a.kind == "agg" and a.a[0] == "Option::Some":
                 bad = _non_identity(a.kids[0], lambda x: x.kind == "call" and "Lines<" in x.a and method_name(x.a) == "Iterator::next")
                 n += 1
